@@ -26,7 +26,7 @@ RULE = (
     "File entity with a relative @id is a member of the archive whose bytes have the recorded sha1 (and contentSize "
     "when recorded); every non-null workflow input and output value of the run is represented by an entity that is an "
     "exampleOfWork of the corresponding workflow parameter (scalar values compared as text, File values by "
-    "checksum). non-trivial = the document used scatter, when, several sources or a subworkflow; distinct = digests "
+    "checksum, arrays leaf by leaf in order). non-trivial = the document used scatter, when, several sources or a subworkflow; distinct = digests "
     "of the documents"
 )
 COMPONENTS = {
@@ -35,7 +35,7 @@ COMPONENTS = {
     "stub": ["aiosqlite thread -> FIFO server", "run_in_subprocess seam"],
 }
 ASSUMPTIONS = ["a run that exhausts its wall-clock cap (300 s; documents with hundreds of process-spawning jobs on a loaded machine) or whose reference run is too slow is counted as undecided (probes wall_timeout_undecided, reference.timeout, reference.too_slow), never as a violation and never as evidence",
-               "null inputs/outputs need no representation", "array values are checked for the presence of their entity, not element by element",
+               "null inputs/outputs need no representation", "array values are compared leaf by leaf in order (the export flattens nested arrays); arrays containing nulls only for the presence of their entity",
                "runs that fail are not exported (the statement speaks of completed runs)"]
 # grammar 2 = grammar 1 + tool-level defaults, valueFrom reading another input, arrays of optional ints; runs without the
 # parameter (replay files recorded before it existed) use grammar 1, whose tape layout is unchanged
@@ -63,6 +63,14 @@ def refs_of(obj, own=True):
 
 def is_absolute(iri):
     return bool(re.match(r"^[A-Za-z][A-Za-z0-9+.-]*:", iri))
+
+
+def _leaves(v):
+    if isinstance(v, list):
+        for x in v:
+            yield from _leaves(x)
+    else:
+        yield v
 
 
 def check_archive(path, gen, outputs):
@@ -106,7 +114,15 @@ def check_archive(path, gen, outputs):
             if isinstance(r, dict) and "@id" in r:
                 by_param.setdefault(r["@id"], []).append(e)
     main = os.path.basename(gen["wf"])
-    for kind, values in (("input", gen["job"]), ("output", outputs)):
+    def with_checksums(v):
+        if isinstance(v, list):
+            return [with_checksums(x) for x in v]
+        if isinstance(v, dict) and v.get("class") == "File" and not v.get("checksum") and v.get("path") and os.path.isfile(v["path"]):
+            with open(v["path"], "rb") as f:
+                return {**v, "checksum": "sha1$" + hashlib.sha1(f.read()).hexdigest()}
+        return v
+
+    for kind, values in (("input", {k: with_checksums(x) for k, x in gen["job"].items()}), ("output", outputs)):
         for name, v in values.items():
             if v is None:
                 continue
@@ -118,6 +134,20 @@ def check_archive(path, gen, outputs):
                 if not any(str(e.get("value")) == str(v) for e in ents):
                     raise Violation("value_misrepresented", f"workflow {kind} {name} = {v!r} is represented as {[e.get('value') for e in ents]}; {d}",
                                     signature=f"value_misrepresented:{kind}:{type(v).__name__}")
+            elif isinstance(v, list):
+                leaves = list(_leaves(v))
+                if any(x is None for x in leaves) or any(isinstance(x, dict) and not (x.get("class") == "File" and x.get("checksum")) for x in leaves):
+                    continue   # arrays with nulls / files without a checksum: presence only
+                want = [x["checksum"].split("$")[-1] if isinstance(x, dict) else str(x) for x in leaves]
+
+                def shown(e):
+                    val = e.get("value")
+                    val = val if isinstance(val, list) else [val]
+                    return [(x.get("@id") if isinstance(x, dict) else str(x)) for x in val]
+
+                if not any(shown(e) == want for e in ents):
+                    raise Violation("value_misrepresented", f"workflow {kind} {name} = array of {len(want)} leaves {want[:6]} is represented as {[shown(e)[:8] for e in ents]}; {d}",
+                                    signature=f"value_misrepresented:{kind}:array_of_{'File' if any(isinstance(x, dict) for x in leaves) else 'scalars'}")
             elif isinstance(v, dict) and v.get("class") == "File" and v.get("checksum"):
                 want = v["checksum"].split("$")[-1]
                 if not any(e.get("sha1") == want or e["@id"] == want for e in ents):
